@@ -7,6 +7,8 @@ import (
 	"go/types"
 	"strings"
 
+	"golang.org/x/tools/go/cfg"
+
 	"rscheck/cfgq"
 	"rscheck/core"
 	"rscheck/flow"
@@ -337,7 +339,8 @@ func r4(c *core.Ctx, nbe *core.Fn, sw *ast.SwitchStmt) {
 }
 
 func sameCall(a, b *ast.CallExpr) bool {
-	return a == b || a.Pos() == b.Pos() && a.Pos().IsValid()
+	// a call rebuilt by flow.Resolve keeps the parentheses of the original
+	return a == b || a.Lparen == b.Lparen && a.Lparen.IsValid()
 }
 
 // sameAsTag reports whether x (at site s) is the value the opcode switch
@@ -633,6 +636,9 @@ func r5cont(c *core.Ctx, nbe *core.Fn) {
 					switch {
 					case isC && v == 0 && b.e.AnyUnder(cs.Sites, complete):
 						n0++
+					case isC && v == 0 && b.effectiveOnlyUnder(st, sts, complete):
+						// assign-then-override: the 0 survives only where the value is complete
+						n0++
 					case isC && v == 0 && b.e.AnyUnder(cs.Sites, partial):
 						bad = append(bad, "0 is stored for a chunk")
 					case isC && v == 0:
@@ -655,4 +661,25 @@ func r5cont(c *core.Ctx, nbe *core.Fn) {
 			c.Okf("R5.chunk", "continuation/real-member-count", nbe.Decl.Pos(), "%s", why)
 		}
 	}
+}
+
+// effectiveOnlyUnder: the value stored by st is still in the field at a normal
+// exit of its function only on paths that establish fact (every other path
+// passes another store to the same field first).
+func (b *binder) effectiveOnlyUnder(st flow.Store, all []flow.Store, fact func(cfgq.Fact) bool) bool {
+	g := st.G
+	other := map[ast.Node]bool{}
+	for _, o := range all {
+		if o.G == g && o.Stmt != st.Stmt {
+			other[o.Stmt] = true
+		}
+	}
+	if len(other) == 0 {
+		return false
+	}
+	w := g.Path(cfgq.Query{From: st.At, After: true,
+		Avoid:      func(n ast.Node) bool { return other[n] },
+		AvoidEdge:  func(blk *cfg.Block, si int) bool { return g.Establishes(blk, si, fact) },
+		TargetExit: cfgq.NormalExit})
+	return w == nil
 }
